@@ -1,5 +1,5 @@
 """The csv crate by contract (C19, manipulate_model): writer = csv-core's quoting rules (QuoteStyle::Necessary), reader = a transcription of csv-core's
-NFA (`transition_nfa` / `transition_final_nfa` of csv-core 0.1.13) driven by the ReaderBuilder options the code sets; serde (de)serialisation of a flat
+NFA (`transition_nfa` of csv-core 0.1.13; end of input as in `transition_final_dfa`) driven by the ReaderBuilder options the code sets; serde (de)serialisation of a flat
 struct of String fields by header name.  Bytes may be symbolic: every comparison with a special byte is an engine decision.  The model is validated
 differentially against the real csv crate (replay op `csv_roundtrip`)."""
 import re
@@ -234,7 +234,9 @@ def parse_records(e, cfg, data):
             state = 'InRecordTerm'
         else:
             break
-    if state in ('StartField', 'InField', 'InQuotedField', 'InEscapedQuote', 'InDoubleEscapedQuote', 'InRecordTerm'):
+    # csv-core's DFA (which the csv crate runs) finishes with a record from every state that is neither the start state nor a record-final state —
+    # including InComment: an unterminated comment line at the end of the input yields a record with one empty field (found by the differential validation)
+    if state in ('StartField', 'InField', 'InQuotedField', 'InEscapedQuote', 'InDoubleEscapedQuote', 'InRecordTerm', 'InComment'):
         enter('EndRecord')
     return records
 
